@@ -248,6 +248,7 @@ CHOICE_decode_oer(const asn_codec_ctx_t *opt_codec_ctx,
             rval.code = RC_OK;
             rval.consumed = got;
         } else {
+            if(!elm->type->op->oer_decoder) ASN__DECODE_FAILED;
             rval = elm->type->op->oer_decoder(
                 opt_codec_ctx, elm->type,
                 elm->encoding_constraints.oer_constraints, memb_ptr2, ptr,
@@ -365,6 +366,7 @@ CHOICE_encode_oer(const asn_TYPE_descriptor_t *td,
         if(encoded < 0) ASN__ENCODE_FAILED;
         er.encoded = tag_len + encoded;
     } else {
+        if(!elm->type->op->oer_encoder) ASN__ENCODE_FAILED;
         er = elm->type->op->oer_encoder(
             elm->type, elm->encoding_constraints.oer_constraints, memb_ptr, cb,
             app_key);
